@@ -1,7 +1,7 @@
 (* C16 - proofs about the parameter-interface model (ParamModel.v) over the regenerated tables (Gen_Bounds.v). *)
 From Coq Require Import ZArith List Bool Lia.
 From ZV.Gen Require Import Gen_Bounds.
-From ZV.Params Require Import BoundsModel ParamModel.
+From ZV.Params Require Import BoundsModel CParamsAdjust ParamModel.
 Import ListNotations.
 Local Open Scope Z_scope.
 
@@ -542,6 +542,24 @@ Proof.
   cbn [fst]. unfold cctx_ok. cbn [c_params]. apply cstore_ok_upd; [exact Hc | eapply cstored_value_ok; exact E].
 Qed.
 
+Lemma cctx_set_seq_ok : forall l c, cctx_ok c -> cctx_ok (fst (cctx_set_seq c l)).
+Proof.
+  induction l as [|[p v] l IH]; intros c Hc; cbn [cctx_set_seq]; [exact Hc|].
+  pose proof (cctx_set_ok c (cparam_id p) v Hc) as H1.
+  destruct (cctx_set c (cparam_id p) v) as [c' [|e]]; cbn [fst] in *; [apply IH; exact H1 | exact H1].
+Qed.
+
+Lemma cctx_set_cparams_ok : forall c cp, cctx_ok c -> cctx_ok (fst (cctx_set_cparams c cp)).
+Proof. intros c cp Hc. unfold cctx_set_cparams. destruct (check_cparams cp); [apply cctx_set_seq_ok; exact Hc | exact Hc]. Qed.
+Lemma cctx_set_fparams_ok : forall c fp, cctx_ok c -> cctx_ok (fst (cctx_set_fparams c fp)).
+Proof. intros c fp Hc. apply cctx_set_seq_ok. exact Hc. Qed.
+Lemma cctx_set_params_ok : forall c cp fp, cctx_ok c -> cctx_ok (fst (cctx_set_params c cp fp)).
+Proof.
+  intros c cp fp Hc. unfold cctx_set_params. destruct (check_cparams cp); [|exact Hc].
+  pose proof (cctx_set_fparams_ok c fp Hc) as H1. destruct (cctx_set_fparams c fp) as [c1 [|e]]; cbn [fst] in *; [|exact H1].
+  apply cctx_set_cparams_ok. exact H1.
+Qed.
+
 Lemma cctx_reset_ok : forall c dir, cctx_ok c -> cctx_ok (fst (cctx_reset c dir)).
 Proof.
   intros c dir Hc. unfold cctx_reset.
@@ -552,7 +570,47 @@ Qed.
 (* the operations of a history; ZSTD_CCtxParams_init takes any int as level and stores it unchecked, so the
    invariant needs its argument to be a level within bounds *)
 Definition op_wf (x : op) : Prop :=
-  match x with OPInit level => in_cbounds C_compressionLevel level | _ => True end.
+  match x with
+  | OPInit level => in_cbounds C_compressionLevel level
+  | OPInitAdv _ fp => in_cbounds C_contentSizeFlag (f_cs fp) /\ in_cbounds C_checksumFlag (f_ck fp)   (* stored as given *)
+  | _ => True
+  end.
+
+Lemma cwithin_in_cbounds : forall p v, cwithin p v = true -> in_cbounds p v.
+Proof.
+  intros p v H. unfold cwithin in H. destruct (cbounds p) as [[lo hi]|] eqn:Hb; [|discriminate H].
+  apply Bool.andb_true_iff in H. destruct H as [H1 H2]. apply Z.leb_le in H1, H2. exists lo, hi. auto.
+Qed.
+
+Lemma check_cparams_fields : forall cp, check_cparams cp = true ->
+  in_cbounds C_windowLog (wlog cp) /\ in_cbounds C_chainLog (clog cp) /\ in_cbounds C_hashLog (hlog cp)
+  /\ in_cbounds C_searchLog (slog cp) /\ in_cbounds C_minMatch (mmatch cp) /\ in_cbounds C_targetLength (tlen cp)
+  /\ in_cbounds C_strategy (strat cp).
+Proof.
+  intros cp H. unfold check_cparams in H. repeat rewrite Bool.andb_true_iff in H.
+  destruct H as ((((((H1 & H2) & H3) & H4) & H5) & H6) & H7).
+  repeat split; apply cwithin_in_cbounds; assumption.
+Qed.
+
+(* ZSTD_CCtxParams_init_advanced: every cell of the initialised object is admissible when the two flags it copies are *)
+Lemma cstore_ok_init_internal : forall cp fp, check_cparams cp = true ->
+  in_cbounds C_contentSizeFlag (f_cs fp) -> in_cbounds C_checksumFlag (f_ck fp) ->
+  cstore_ok (cparams_init_internal cp fp 0).
+Proof.
+  intros cp fp Hc Hcs Hck p. destruct (check_cparams_fields cp Hc) as (H1 & H2 & H3 & H4 & H5 & H6 & H7).
+  destruct p; unfold cvalue_ok; cbn [cparams_init_internal]; try (left; assumption);
+    try (match goal with |- in_cbounds ?p _ \/ _ => with_bounds p end;
+         first [ left; eapply in_cbounds_intro; [exact Hb' | vm_compute; split; discriminate]
+               | right; split; reflexivity ]).
+  - (* enableLongDistanceMatching *) with_bounds C_enableLongDistanceMatching. left. eapply in_cbounds_intro; [exact Hb'|].
+    unfold resolve_ldm. cbn [negb]. rewrite Z.eqb_refl. cbn [negb]. destruct (_ && _); vm_compute; split; discriminate.
+  - (* dictIDFlag *) with_bounds C_dictIDFlag. left. eapply in_cbounds_intro; [exact Hb'|]. destruct (f_nd fp =? 0); lia.
+  - (* useBlockSplitter *) with_bounds C_useBlockSplitter. left. eapply in_cbounds_intro; [exact Hb'|].
+    unfold resolve_split. rewrite Z.eqb_refl. cbn [negb]. destruct (_ && _); vm_compute; split; discriminate.
+  - (* useRowMatchFinder *) with_bounds C_useRowMatchFinder. left. eapply in_cbounds_intro; [exact Hb'|].
+    unfold resolve_row. rewrite Z.eqb_refl. cbn [negb]. destruct (_ && _); vm_compute; split; discriminate.
+Qed.
+
 
 Definition world_ok (w : world) : Prop := cctx_ok (w_c0 w) /\ cctx_ok (w_c1 w) /\ cstore_ok (w_p w).
 
@@ -592,6 +650,15 @@ Proof.
     replace c with (fst (cparams_set_id (w_p w) id v)) by (rewrite E; reflexivity). apply cparams_set_id_ok, Hp.
   - destruct Hw as (H0 & H1 & Hp). repeat split; try assumption. exact cstore_ok_default.
   - destruct Hw as (H0 & H1 & Hp). repeat split; try assumption. apply cstore_ok_init. exact Hx.
+  - apply put_c_ok; [exact Hw|]. replace c with (fst (cctx_set_cparams (get_c w o) cp)) by (rewrite E; reflexivity).
+    apply cctx_set_cparams_ok, get_c_ok, Hw.
+  - apply put_c_ok; [exact Hw|]. replace c with (fst (cctx_set_fparams (get_c w o) fp)) by (rewrite E; reflexivity).
+    apply cctx_set_fparams_ok, get_c_ok, Hw.
+  - apply put_c_ok; [exact Hw|]. replace c with (fst (cctx_set_params (get_c w o) cp fp)) by (rewrite E; reflexivity).
+    apply cctx_set_params_ok, get_c_ok, Hw.
+  - destruct Hw as (H0 & H1 & Hp). repeat split; try assumption.
+    revert E. unfold cparams_init_advanced. destruct (check_cparams cp) eqn:Hc; intro E; injection E as <- _; [|exact Hp].
+    destruct Hx as [Hcs Hck]. apply cstore_ok_init_internal; assumption.
 Qed.
 
 Lemma run_ok : forall ops w, world_ok w -> Forall op_wf ops -> world_ok (run w ops).
@@ -613,7 +680,7 @@ Qed.
    and simple-API compressions, dictionary calls, anything on other objects) leave its parameters exactly as they are *)
 Definition touches_cparams (o : bool) (x : op) : bool :=
   match x with
-  | OCSet o' _ _ | OCReset o' _ | OCApply o' => Bool.eqb o o'
+  | OCSet o' _ _ | OCReset o' _ | OCApply o' | OCSetCP o' _ | OCSetFP o' _ | OCSetP o' _ _ => Bool.eqb o o'
   | ONew => true
   | _ => false
   end.
@@ -660,11 +727,13 @@ Lemma frames_reflect_parameters_l : forall ops w o,
   let w' := run w ops in
   exists dflag,
     snd (step w' (OCFrame o)) =
-      (Ok, [c_params (get_c w o) C_checksumFlag; c_params (get_c w o) C_contentSizeFlag; dflag; c_params (get_c w o) C_format])
+      (Ok, [ (if negb (c_params (get_c w o) C_checksumFlag =? 0) then 1 else 0);
+             (if negb (c_params (get_c w o) C_contentSizeFlag =? 0) then 1 else 0);
+             dflag; c_params (get_c w o) C_format ])
     /\ (dflag = 0 \/ dflag = c_params (get_c w o) C_dictIDFlag).
 Proof.
   intros ops w o Hf w'. cbn [step snd]. unfold cctx_frame_hdr. unfold w'.
-  rewrite (sticky_across_frames_l ops w o Hf).
+  rewrite (sticky_across_frames_l ops w o Hf). cbn [andb].
   eexists. split; [reflexivity|]. destruct (dict_has_id _); auto.
 Qed.
 
@@ -781,16 +850,16 @@ Qed.
 (* D-T5 / D-T6 *)
 Lemma d_reset_parameters_restores_defaults_l : forall d dir,
   is_params dir = true -> (d_stage d = S_init \/ is_session dir = true) ->
-  dctx_reset d dir = (mkD 0 (2 ^ z_ZSTD_WINDOWLOG_LIMIT_DEFAULT + 1) 0 0 0 0 0 S_init false (d_static d), Ok)
+  dctx_reset d dir = (mkD 0 (2 ^ z_ZSTD_WINDOWLOG_LIMIT_DEFAULT + 1) 0 0 0 0 0 S_init (dd_clear (d_dict d)) (d_static d), Ok)
   /\ dctx_get_p (fst (dctx_reset d dir)) D_windowLogMax = z_ZSTD_WINDOWLOG_LIMIT_DEFAULT.
 Proof.
   intros d dir Hp Hs.
-  assert (E : dctx_reset d dir = (mkD 0 (2 ^ z_ZSTD_WINDOWLOG_LIMIT_DEFAULT + 1) 0 0 0 0 0 S_init false (d_static d), Ok)).
+  assert (E : dctx_reset d dir = (mkD 0 (2 ^ z_ZSTD_WINDOWLOG_LIMIT_DEFAULT + 1) 0 0 0 0 0 S_init (dd_clear (d_dict d)) (d_static d), Ok)).
   { unfold dctx_reset. fold (is_session dir) (is_params dir). rewrite Hp.
     destruct (is_session dir); cbn [dctx_set_stage d_stage stage_is_init]; [reflexivity|].
     destruct Hs as [Hs|Hs]; [|discriminate Hs]. rewrite Hs. cbn [stage_is_init].
     unfold dctx_reset_params, dctx_set_dict. cbn [d_stage d_dict d_static]. rewrite Hs. reflexivity. }
-  split; [exact E|]. rewrite E. vm_compute. reflexivity.
+  split; [exact E|]. rewrite E. cbn [fst dctx_get_p d_maxWindowSize]. vm_compute. reflexivity.
 Qed.
 
 Lemma d_reset_session_keeps_parameters_l : forall d dir,
@@ -892,8 +961,61 @@ Proof.
     try destruct (d_stage d); cbn [stage_is_init fst]; try exact Hd; apply dctx_ok_defaults.
 Qed.
 
+(* the dictionary calls and the decoding calls leave every parameter field as it is *)
+Definition dsame (d d' : dctx) : Prop :=
+  d_format d' = d_format d /\ d_maxWindowSize d' = d_maxWindowSize d /\ d_outBufferMode d' = d_outBufferMode d
+  /\ d_forceIgnoreChecksum d' = d_forceIgnoreChecksum d /\ d_refMultipleDDicts d' = d_refMultipleDDicts d
+  /\ d_disableHufAsm d' = d_disableHufAsm d /\ d_maxBlockSizeParam d' = d_maxBlockSizeParam d /\ d_static d' = d_static d.
+
+Lemma dctx_ok_same : forall d d', dsame d d' -> dctx_ok d -> dctx_ok d'.
+Proof.
+  intros d d' (E1 & E2 & E3 & E4 & E5 & E6 & E7 & _) H. unfold dctx_ok in *. rewrite E1, E2, E3, E4, E5, E6, E7. exact H.
+Qed.
+
+Lemma dsame_refl : forall d, dsame d d.
+Proof. intro d. repeat split. Qed.
+Lemma dsame_dict_stage : forall d x s, dsame d (dctx_set_stage (dctx_set_dict d x) s).
+Proof. intros. repeat split. Qed.
+
+Ltac dsame_tac :=
+  repeat match goal with
+         | |- context [if ?c then _ else _] => destruct c
+         | |- context [let '(_, _) := ?e in _] => destruct e
+         | |- context [match ?e with (_, _) => _ end] => destruct e
+         end;
+  cbn [fst]; first [apply dsame_refl | apply dsame_dict_stage | repeat split].
+
+Lemma dsame_refddict : forall d k, dsame d (fst (dctx_refddict d k)).
+Proof. intros. unfold dctx_refddict. dsame_tac. Qed.
+Lemma dsame_load : forall d k, dsame d (fst (dctx_load d k)).
+Proof. intros. unfold dctx_load. dsame_tac. Qed.
+Lemma dsame_refprefix : forall d k, dsame d (fst (dctx_refprefix d k)).
+Proof. intros. unfold dctx_refprefix. dsame_tac. Qed.
+Lemma dsame_begin : forall st d, dsame d (dctx_begin_gen st d).
+Proof. intros. unfold dctx_begin_gen. apply dsame_dict_stage. Qed.
+Lemma dsame_end : forall st d, dsame d (dctx_end_gen st d).
+Proof. intros. unfold dctx_end_gen. apply dsame_dict_stage. Qed.
+Lemma dsame_frame : forall st d, dsame d (dctx_frame_gen st d).
+Proof. intros. unfold dctx_frame_gen. apply dsame_dict_stage. Qed.
+Lemma dsame_bad : forall st d, dsame d (dctx_bad_gen st d).
+Proof. intros. unfold dctx_bad_gen. apply dsame_dict_stage. Qed.
+Lemma dsame_fx : forall st d k, dsame d (dctx_fx_gen st d k).
+Proof. intros. unfold dctx_fx_gen. apply dsame_dict_stage. Qed.
+Lemma dsame_dec_stream : forall st d f, dsame d (fst (dctx_dec_stream_gen st d f)).
+Proof. intros. unfold dctx_dec_stream_gen. destruct (dd_stream_header _ _ _ _). cbn [fst]. apply dsame_dict_stage. Qed.
+Lemma dsame_dec_oneshot : forall st d fs, dsame d (fst (dctx_dec_oneshot_gen st d fs)).
+Proof.
+  intros. unfold dctx_dec_oneshot_gen. destruct (dd_get _). destruct (negb _); [cbn [fst]; apply dsame_dict_stage|].
+  destruct (dd_oneshot_frames _ _ _ _ _). cbn [fst]. apply dsame_dict_stage.
+Qed.
+Lemma dsame_dec_using : forall st d k f, dsame d (fst (dctx_dec_using_gen st d k f)).
+Proof.
+  intros. unfold dctx_dec_using_gen. destruct (negb _); [cbn [fst]; apply dsame_dict_stage|].
+  destruct (dd_oneshot_frame _ _ _ _ _) as [[x1 u] ok]. cbn [fst]. apply dsame_dict_stage.
+Qed.
+
 Lemma dctx_refddict_ok : forall d k, dctx_ok d -> dctx_ok (fst (dctx_refddict d k)).
-Proof. intros d k Hd. unfold dctx_refddict. destruct (negb _); exact Hd. Qed.
+Proof. intros d k Hd. eapply dctx_ok_same; [apply dsame_refddict | exact Hd]. Qed.
 
 Definition dworld_ok (w : world) : Prop := dctx_ok (w_d0 w) /\ dctx_ok (w_d1 w).
 
@@ -914,12 +1036,23 @@ Proof.
   - replace d with (fst (dctx_set (get_d w o) id v)) by (rewrite E; reflexivity). apply dctx_set_ok, get_d_ok, Hw.
   - replace d with (fst (dctx_reset (get_d w o) dir)) by (rewrite E; reflexivity). apply dctx_reset_ok, get_d_ok, Hw.
   - replace d with (fst (dctx_set_max_window_size (get_d w o) size)) by (rewrite E; reflexivity). apply dctx_maxwin_ok, get_d_ok, Hw.
-  - apply dctx_ok_stage, get_d_ok, Hw.
-  - apply dctx_ok_stage, get_d_ok, Hw.
-  - apply dctx_ok_stage, get_d_ok, Hw.
-  - apply dctx_ok_stage, get_d_ok, Hw.
+  - eapply dctx_ok_same; [apply dsame_begin | apply get_d_ok, Hw].
+  - eapply dctx_ok_same; [apply dsame_end | apply get_d_ok, Hw].
+  - eapply dctx_ok_same; [apply dsame_bad | apply get_d_ok, Hw].
+  - eapply dctx_ok_same; [apply dsame_frame | apply get_d_ok, Hw].
   - replace d with (fst (dctx_refddict (get_d w o) k)) by (rewrite E; reflexivity). apply dctx_refddict_ok, get_d_ok, Hw.
   - split; apply dctx_ok_defaults.
+  - replace d with (fst (dctx_load (get_d w o) k)) by (rewrite E; reflexivity).
+    eapply dctx_ok_same; [apply dsame_load | apply get_d_ok, Hw].
+  - replace d with (fst (dctx_refprefix (get_d w o) k)) by (rewrite E; reflexivity).
+    eapply dctx_ok_same; [apply dsame_refprefix | apply get_d_ok, Hw].
+  - eapply dctx_ok_same; [apply dsame_fx | apply get_d_ok, Hw].
+  - replace d with (fst (dctx_dec_stream (get_d w o) f)) by (rewrite E; reflexivity).
+    eapply dctx_ok_same; [apply dsame_dec_stream | apply get_d_ok, Hw].
+  - replace d with (fst (dctx_dec_oneshot (get_d w o) fs)) by (rewrite E; reflexivity).
+    eapply dctx_ok_same; [apply dsame_dec_oneshot | apply get_d_ok, Hw].
+  - replace d with (fst (dctx_dec_using (get_d w o) k f)) by (rewrite E; reflexivity).
+    eapply dctx_ok_same; [apply dsame_dec_using | apply get_d_ok, Hw].
 Qed.
 
 Lemma history_dparams_within_bounds_l : forall ops o p,
@@ -960,6 +1093,9 @@ Proof. intros w [] [] c; reflexivity. Qed.
 Lemma get_d_put_p : forall w o s, get_d (put_p w s) o = get_d w o.
 Proof. intros w [] s; reflexivity. Qed.
 
+Lemma dsame_dparams : forall d d', dsame d d' -> dparams_of d' = dparams_of d.
+Proof. intros d d' (E1 & E2 & E3 & E4 & E5 & E6 & E7 & _). unfold dparams_of. rewrite E1, E2, E3, E4, E5, E6, E7. reflexivity. Qed.
+
 Lemma dstep_sticky : forall w x o, touches_dparams o x = false ->
   dparams_of (get_d (fst (step w x)) o) = dparams_of (get_d w o).
 Proof.
@@ -970,7 +1106,12 @@ Proof.
     try (revert Ht; destruct (Bool.eqb_spec o o0) as [->|Hne]; intro Ht;
          [ try discriminate Ht; rewrite get_put_d_same | rewrite get_put_d_other by assumption; reflexivity ]);
     try reflexivity.
-  revert E. unfold dctx_refddict. case_ifs; intro E; injection E as <- _; reflexivity.
+  - replace d with (fst (dctx_refddict (get_d w o0) k)) by (rewrite E; reflexivity). apply dsame_dparams, dsame_refddict.
+  - replace d with (fst (dctx_load (get_d w o0) k)) by (rewrite E; reflexivity). apply dsame_dparams, dsame_load.
+  - replace d with (fst (dctx_refprefix (get_d w o0) k)) by (rewrite E; reflexivity). apply dsame_dparams, dsame_refprefix.
+  - replace d with (fst (dctx_dec_stream (get_d w o0) f)) by (rewrite E; reflexivity). apply dsame_dparams, dsame_dec_stream.
+  - replace d with (fst (dctx_dec_oneshot (get_d w o0) fs)) by (rewrite E; reflexivity). apply dsame_dparams, dsame_dec_oneshot.
+  - replace d with (fst (dctx_dec_using (get_d w o0) k f)) by (rewrite E; reflexivity). apply dsame_dparams, dsame_dec_using.
 Qed.
 
 Lemma d_sticky_across_frames_l : forall ops w o,
